@@ -79,10 +79,19 @@ func init() {
 			bluemonday.UGCPolicy().AllowNoAttrs().OnElementsMatching(regexp.MustCompile(`^(embed|x-.*)$`))
 			bluemonday.StrictPolicy().AllowElements("script", "b").AllowAttrs("onclick").Globally().AllowUnsafe(true)
 			bluemonday.NewPolicy().AllowElementsContent("object").AllowElements("i")
+			bluemonday.UGCPolicy().AllowAttrs("style", "onclick", "background").OnElements("td", "th", "table")
+			q := bluemonday.NewPolicy()
+			q.SkipElementsContent("x-hidden")
+			q.AllowNoAttrs().OnElements("a", "q")
+			q.AllowElementsContent("iframe", "object", "noscript")
+			r2 := bluemonday.NewPolicy()
+			r2.AllowNoAttrs().OnElements("span")
+			r2.AllowElementsContent("title")
 		}
 		derive()
 		polluted := []string{"<x-a onload=\"1\" style=\"position: fixed\">t</x-a>", "<object>secret</object><title>t</title>", "<p>kept</p><embed>", "<b onclick=\"1\">b</b><script>s</script><i>i</i>",
-			"<iframe onload=x></iframe><form onload=y>f</form>"}
+			"<iframe onload=x></iframe><form onload=y>f</form>", "<table><tr><td style=\"x\" onclick=\"y\" background=\"z\">c</td></tr></table>", "<a>bare</a><q>q</q><span>s</span>",
+			"<iframe>t</iframe><noscript>n</noscript><title>ti</title>"}
 		{
 			c.pid++
 			fmt.Fprintf(c.w, "policy %d %s %s\n", c.pid, "@UGC", bmx.HexS(early.VerifDump(sourceNamer)))
@@ -158,14 +167,22 @@ func init() {
 					{Kind: "US", Names: []string{"http", "https"}}, {Kind: "RU", Flag: true},
 					{Kind: "NF", Flag: opt&1 != 0}, {Kind: "NFQ", Flag: opt&2 != 0}, {Kind: "NR", Flag: opt&4 != 0},
 					{Kind: "NRQ", Flag: opt&8 != 0}, {Kind: "TB", Flag: opt&16 != 0}}
-				if allowMask&4 != 0 {
-					ops = append(ops, &bmx.Op{Kind: "CO", Flag: true})
+				if allowMask&4 != 0 || opt%3 == 0 {
+					ops = append(ops, &bmx.Op{Kind: "CO", Flag: true}, &bmx.Op{Kind: "AA", Names: []string{"src"}, Scope: "E", ScopeEl: []string{"img", "video"}})
 				}
 				pid, pol := c.policy(ops)
 				for _, d := range []string{"<a href=\"http://x.com/\">t</a>", "<a href=\"/rel\">t</a>", "<a target=\"_blank\" href=\"/r\">t</a>",
-					"<a rel=\"author\" href=\"http://x.com/\" target=\"_self\">t</a>", "<a rel=\"author\" target=\"_blank\" href=\"http://x.com/\">t</a>", "<a href=\"/r\" rel=\"x\" target=\"_BLANK\">t</a>", "<area href=\"http://x.com/\"><link href=\"http://x.com/\" crossorigin=\"x\">"} {
+					"<a rel=\"author\" href=\"http://x.com/\" target=\"_self\">t</a>", "<a rel=\"author\" target=\"_blank\" href=\"http://x.com/\">t</a>", "<a href=\"/r\" rel=\"x\" target=\"_BLANK\">t</a>", "<img src=\"javascript:alert(1)\"><video src=\"vbscript:x\">v</video><link href=\"javascript:x\">", "<area href=\"http://x.com/\"><link href=\"http://x.com/\" crossorigin=\"x\">"} {
 					emit(pid, pol, []byte(d))
 				}
+			}
+		}
+		// escaping makes tokens grow: very long runs of characters that need escaping, twice
+		for _, name := range []string{"@STRICT", "@UGC"} {
+			pid, pol := c.shipped(name)
+			for _, doc := range []string{"<p>" + strings.Repeat("\"", 300000) + "</p>", "<p title=\"" + strings.Repeat("&amp;", 60000) + "\">t</p>", strings.Repeat("<", 250000)} {
+				o1 := pol.Sanitize(doc)
+				fmt.Fprintf(c.w, "bigidem %d %d %s\n", pid, len(doc), b01(pol.Sanitize(o1) == o1 && o1 != ""))
 			}
 		}
 		for i := 0; i < c.n/2; {
@@ -269,6 +286,10 @@ func init() {
 					in = []byte(bmx.Pick(c.r, []string{"<p>a<script>var x = 1 < 2;</script>b<!-- c --><style>p{}</style><i>c</i></p>",
 						"<script>unterminated", "<b id=1>t</b><style>x{y:z}</style><!--c-->", "x<script>s</script><script>t</script>y"}))
 				}
+				if k == 1 && round%3 == 0 {
+					// tokens longer than any buffer an adapter might chunk by
+					in = []byte("<p>" + strings.Repeat("long text ", 900) + "</p><!--" + strings.Repeat("c", 5000) + "-->" + "<b>x</b>")
+				}
 				if k == 2 && round%2 == 1 {
 					// a failure that lands inside an open skip-content / dropped element
 					in = []byte(bmx.Pick(c.r, []string{"a<object>b<b>c", "x<title>unclosed", "<a>1<a>2<object>3<iframe>4", "t<frameset><b>u</b>"}))
@@ -350,6 +371,13 @@ func init() {
 				&bmx.Op{Kind: "AS", Names: []string{"color", "width"}, Handler: "always", Scope: "M", ScopeRe: bmx.NewRE(`el$`)})
 			// several rules for one attribute on one pattern (a rule slice with spare capacity), a rule
 			// for the same attribute on two further overlapping patterns
+			ps := bmx.NewRE(`^x-`)
+			for _, e := range []string{"red", "blue", "green"} {
+				ops = append(ops, &bmx.Op{Kind: "AS", Names: []string{"color"}, Enum: []string{e}, Scope: "M", ScopeRe: ps})
+			}
+			ops = append(ops, &bmx.Op{Kind: "AS", Names: []string{"color"}, Enum: []string{"left"}, Scope: "M", ScopeRe: bmx.NewRE(`-left$`)},
+				&bmx.Op{Kind: "AS", Names: []string{"color"}, Enum: []string{"right"}, Scope: "M", ScopeRe: bmx.NewRE(`-right$`)},
+				&bmx.Op{Kind: "AA", Names: []string{"style"}, Scope: "G"})
 			pw := bmx.NewRE(`^w-`)
 			for _, src := range []string{`^a+$`, `^b+$`, `^c+$`} {
 				ops = append(ops, &bmx.Op{Kind: "AA", Names: []string{"title"}, Re: bmx.NewRE(src), Scope: "M", ScopeRe: pw})
@@ -373,6 +401,10 @@ func init() {
 			seq := make([]string, len(inputs))
 			for k := range inputs {
 				inputs[k] = g.Doc(1 + c.r.Intn(14))
+				if k%4 == 2 {
+					v := bmx.Pick(c.r, []string{"red", "blue", "green", "left", "right", "black"})
+					inputs[k] = []byte("<x-left style=\"color: " + v + "\">L</x-left><x-right style=\"color: " + v + "\">R</x-right><x-mid style=\"color: " + v + "\">M</x-mid>")
+				}
 				if k%4 == 3 {
 					v := bmx.Pick(c.r, []string{"aaa", "bbb", "ccc", "ddd", "eee", "zzz"})
 					inputs[k] = []byte("<w-k-x title=\"" + v + "\">t</w-k-x><w-k title=\"" + v + "\">u</w-k><q-x title=\"" + v + "\">v</q-x>")
@@ -744,10 +776,29 @@ func init() {
 			}
 		}
 	}
+	toggleFam := func(c *ctx) {
+		hist := [][]*bmx.Op{
+			{{Kind: "DU"}, {Kind: "US", Names: []string{"DATA"}}, {Kind: "DU"}},
+			{{Kind: "US", Names: []string{"data"}}, {Kind: "DU"}},
+			{{Kind: "DU"}, {Kind: "DU"}},
+			{{Kind: "DU"}, {Kind: "US", Names: []string{"data"}}},
+			{{Kind: "US", Names: []string{"https"}}, {Kind: "UC", Names: []string{"https"}, Cb: "host=good.example"}},
+			{{Kind: "UC", Names: []string{"https"}, Cb: "host=good.example"}, {Kind: "US", Names: []string{"https"}}, {Kind: "UC", Names: []string{"https"}, Cb: "never"}},
+		}
+		for _, h := range hist {
+			ops := append([]*bmx.Op{{Kind: "AE", Names: []string{"img", "a"}}, {Kind: "AA", Names: []string{"src", "href"}, Scope: "G"}}, h...)
+			pid, pol := c.policy(ops)
+			for _, d := range []string{"<img src=\"data:image/png;base64,iVBORw0KGgo=\">", "<img src=\"data:text/html;base64,PHNjcmlwdD4=\">", "<img src=\"data:,x\">",
+				"<a href=\"https://good.example/\">g</a>", "<a href=\"https://evil.example/\">e</a>"} {
+				c.san(pid, pol, []byte(d))
+			}
+		}
+	}
 	permFam := families["perm"]
 	families["perm"] = func(c *ctx) {
 		permFam(c)
 		monoFam(c)
+		toggleFam(c)
 	}
 
 	// directed material for individual properties
@@ -761,6 +812,7 @@ func init() {
 			directedC11(c)
 		case "C12":
 			directedC12(c)
+			directedC12extra(c)
 		case "C03":
 			directedC03(c)
 		case "C07":
